@@ -57,6 +57,19 @@ fn alt_builds(r: &Range<u32>, segs: &[Seg]) -> Vec<(&'static str, Range<u32>)> {
 pub fn eval_rbin(req: &str, a_s: &str, b_s: &str) -> Case {
     let (sa, sb) = (parse_segs(a_s), parse_segs(b_s));
     let (a, b) = (range_from_segs(&sa), range_from_segs(&sb));
+    let (mut imp, mut fail, tags, nontrivial, results) = rbin_core(&a, &sa, &b, &sb, true);
+    // second level: the RESULTS of the operations, as the objects the real code returned (their storage has
+    // another history than a freshly built range), must satisfy every clause again and behave like a fresh build
+    for (what, r) in &results {
+        deep_check(what, r, &mut imp, &mut fail);
+    }
+    Case { req: req.to_string(), imp, nontrivial, oracle_fail: fail, tags }
+}
+
+/// all binary operations on the two OBJECTS `a`, `b` whose segments are `sa`, `sb`
+#[allow(clippy::type_complexity)]
+fn rbin_core(a: &Range<u32>, sa: &[Seg], b: &Range<u32>, sb: &[Seg], with_alt: bool) -> (String, Option<String>, Vec<&'static str>, bool, Vec<(&'static str, Range<u32>)>) {
+    let (sa, sb) = (sa.to_vec(), sb.to_vec());
     let u = a.union(&b);
     let i = a.intersection(&b);
     let d = a.is_disjoint(&b);
@@ -115,7 +128,7 @@ pub fn eval_rbin(req: &str, a_s: &str, b_s: &str) -> Case {
     if eq != same {
         set(format!("==  is {} but same points is {}", eq, same));
     }
-    if (i == a) != a_in_b {
+    if (&i == a) != a_in_b {
         set("a∩b == a  disagrees with inclusion".into());
     }
     if (i == Range::empty()) != !common {
@@ -138,7 +151,10 @@ pub fn eval_rbin(req: &str, a_s: &str, b_s: &str) -> Case {
     }
     // representation independence: the same set reached through other operations (another SmallVec
     // history / capacity / variant) must be ==, compare Equal and hash alike
-    for (r, segs) in [(&a, &sa), (&b, &sb)] {
+    for (r, segs) in [(a, &sa), (b, &sb)] {
+        if !with_alt {
+            break;
+        }
         for (how, alt) in alt_builds(r, segs) {
             if &alt != r || alt.cmp(r) != Ordering::Equal || r.cmp(&alt) != Ordering::Equal {
                 set(format!("{} is not == / Equal to the range itself", how));
@@ -169,7 +185,94 @@ pub fn eval_rbin(req: &str, a_s: &str, b_s: &str) -> Case {
     if d {
         tags.push("pair_disjoint");
     }
-    Case { req: req.to_string(), imp, nontrivial: shares && !eq, oracle_fail: fail, tags }
+    (imp, fail, tags, shares && !eq, vec![("union", u), ("intersection", i)])
+}
+
+thread_local! {
+    /// number of second-level (result object) checks done, for the evidence
+    pub static DEEP_CHECKS: std::cell::Cell<u64> = const { std::cell::Cell::new(0) };
+}
+
+/// version lists for the second-level checks of a range with segments `sr`
+fn probe_lists(sr: &[Seg]) -> Vec<Vec<u32>> {
+    let mut pts: Vec<u32> = vec![];
+    for v in bound_values(sr) {
+        for d in [0i64, -1, 1] {
+            let x = v as i64 + d;
+            if x >= 0 {
+                pts.push(x as u32);
+            }
+        }
+    }
+    pts.sort();
+    pts.dedup();
+    if pts.len() > 12 {
+        // long ranges: the neighbourhood of the first two and the last two bound values
+        let n = pts.len();
+        pts = pts[..6].iter().chain(pts[n - 6..].iter()).cloned().collect();
+    }
+    let mut out: Vec<Vec<u32>> = pts.iter().map(|p| vec![*p]).collect();
+    for w in pts.windows(2) {
+        out.push(w.to_vec());
+    }
+    out.push(pts.clone());
+    out
+}
+
+/// Second level: `r` is an object RETURNED by the real code.  (1) every unary / query / binary clause is
+/// evaluated on it again (a concrete failing input when one fails); (2) everything it answers must equal what
+/// a range freshly built from the same segments answers — if not, and no clause failed, the implementation's
+/// line is marked so that the mirror (which knows segments only) reports the difference.
+fn deep_check(what: &str, r: &Range<u32>, imp: &mut String, fail: &mut Option<String>) {
+    DEEP_CHECKS.with(|c| c.set(c.get() + 1));
+    let sr = segs_of(r);
+    let fresh = range_from_segs(&sr);
+    let mut differs: Option<String> = None;
+    let mut note = |f: Option<String>, i1: &str, i2: &str, ctx: String| {
+        if let Some(m) = f {
+            if fail.is_none() {
+                *fail = Some(format!("on the result of {} (= {}): {} [{}]", what, fmt_segs(&sr), m, ctx));
+            }
+        }
+        if i1 != i2 && differs.is_none() {
+            differs = Some(format!("{}: {} vs fresh {}", ctx, i1, i2));
+        }
+    };
+    let (i1, f1, _, _) = run_core(r, &sr);
+    let (i2, _, _, _) = run_core(&fresh, &sr);
+    note(f1, &i1, &i2, "unary".into());
+    for vs in probe_lists(&sr) {
+        let (i1, f1, _, _, _) = rvs_core(r, &sr, &vs);
+        let (i2, _, _, _, _) = rvs_core(&fresh, &sr, &vs);
+        note(f1, &i1, &i2, format!("versions {}", fmt_versions(&vs)));
+    }
+    let mut probes: Vec<Vec<Seg>> = vec![sr.clone(), segs_of(&fresh.complement())];
+    if let Some((s, e)) = sr.first().cloned() {
+        probes.push(vec![(s, e)]);
+    }
+    if sr.len() >= 2 {
+        probes.push(sr[1..].to_vec());
+        probes.push(sr[..sr.len() - 1].to_vec());
+    }
+    for sp in probes {
+        let p = range_from_segs(&sp);
+        let (i1, f1, _, _, _) = rbin_core(r, &sr, &p, &sp, false);
+        let (i2, _, _, _, _) = rbin_core(&fresh, &sr, &p, &sp, false);
+        note(f1, &i1, &i2, format!("paired with {}", fmt_segs(&sp)));
+        let (i1, f1, _, _, _) = rbin_core(&p, &sp, r, &sr, false);
+        let (i2, _, _, _, _) = rbin_core(&p, &sp, &fresh, &sr, false);
+        note(f1, &i1, &i2, format!("{} paired with it", fmt_segs(&sp)));
+    }
+    if hash_of(r) != hash_of(&fresh) || r != &fresh {
+        if fail.is_none() {
+            *fail = Some(format!("the result of {} (= {}) is not == / does not hash like the same segments built afresh", what, fmt_segs(&sr)));
+        }
+    }
+    if let Some(d) = differs {
+        if fail.is_none() {
+            imp.push_str(&format!("|REPRESENTATION-DEPENDENT({}: {})", what, d));
+        }
+    }
 }
 
 fn fmt_opt_bound(b: Bound<&u32>) -> String {
@@ -217,6 +320,13 @@ pub fn read_display(text: &str) -> Option<Vec<Seg>> {
 pub fn eval_run(req: &str, a_s: &str) -> Case {
     let sa = parse_segs(a_s);
     let a = range_from_segs(&sa);
+    let (mut imp, mut fail, tags, nontrivial) = run_core(&a, &sa);
+    deep_check("complement", &a.complement(), &mut imp, &mut fail);
+    Case { req: req.to_string(), imp, nontrivial, oracle_fail: fail, tags }
+}
+
+fn run_core(a: &Range<u32>, sa: &[Seg]) -> (String, Option<String>, Vec<&'static str>, bool) {
+    let sa = sa.to_vec();
     let n = a.complement();
     let e = a.is_empty();
     let sg = a.as_singleton().map(|v| v.to_string()).unwrap_or("none".into());
@@ -256,7 +366,7 @@ pub fn eval_run(req: &str, a_s: &str) -> Case {
     if !segs_wf(&sn) {
         set("complement is not canonical".into());
     }
-    if n.complement() != a {
+    if &n.complement() != a {
         set("double complement is not the identity".into());
     }
     if e != members.is_empty() {
@@ -313,7 +423,8 @@ pub fn eval_run(req: &str, a_s: &str) -> Case {
     if single.is_some() {
         tags.push("unary_singleton");
     }
-    Case { req: req.to_string(), imp, nontrivial: !sa.is_empty() && sa != vec![(Unbounded, Unbounded)], oracle_fail: fail, tags }
+    let nontrivial = !sa.is_empty() && sa != vec![(Unbounded, Unbounded)];
+    (imp, fail, tags, nontrivial)
 }
 
 /// `rvs|A|v1,v2,…` : contains, contains_many, simplify on a sorted version sequence (C15)
@@ -321,6 +432,14 @@ pub fn eval_rvs(req: &str, a_s: &str, vs_s: &str) -> Case {
     let sa = parse_segs(a_s);
     let a = range_from_segs(&sa);
     let vs = parse_versions(vs_s);
+    let (mut imp, mut fail, tags, nontrivial, si) = rvs_core(&a, &sa, &vs);
+    deep_check("simplify", &si, &mut imp, &mut fail);
+    Case { req: req.to_string(), imp, nontrivial, oracle_fail: fail, tags }
+}
+
+fn rvs_core(a: &Range<u32>, sa: &[Seg], vs: &[u32]) -> (String, Option<String>, Vec<&'static str>, bool, Range<u32>) {
+    let sa = sa.to_vec();
+    let vs = vs.to_vec();
     let ct: String = vs.iter().map(|v| bit(a.contains(v))).collect();
     let cm: String = a.contains_many(vs.iter()).map(bit).collect();
     let si = a.simplify(vs.iter());
@@ -348,7 +467,7 @@ pub fn eval_rvs(req: &str, a_s: &str, vs_s: &str) -> Case {
         set("simplify has more segments".into());
     }
     let any_match = reference.contains('1');
-    if (a.as_singleton().is_some() || !any_match) && si != a {
+    if (a.as_singleton().is_some() || !any_match) && &si != a {
         set("simplify must return the original (singleton / nothing matches)".into());
     }
     // (canonicity of the result is not part of the property; the mirror compares the exact result)
@@ -363,13 +482,8 @@ pub fn eval_rvs(req: &str, a_s: &str, vs_s: &str) -> Case {
     if ssi.len() < sa.len() {
         tags.push("simplify_reduced");
     }
-    Case {
-        req: req.to_string(),
-        imp,
-        nontrivial: any_match && reference.contains('0'),
-        oracle_fail: fail,
-        tags,
-    }
+    let nontrivial = any_match && reference.contains('0');
+    (imp, fail, tags, nontrivial, si)
 }
 
 /// `rfrb|start|end` : from_range_bounds (C15) ; `rcon|kind|v1|v2` : constructors (C10)
@@ -395,6 +509,8 @@ pub fn eval_rfrb(req: &str, s: &str, e: &str) -> Case {
     if !segs_wf(&sr) {
         fail = Some("from_range_bounds result not canonical".into());
     }
+    let mut imp = imp;
+    deep_check("from_range_bounds", &r, &mut imp, &mut fail);
     Case { req: req.to_string(), imp, nontrivial: true, oracle_fail: fail, tags: vec![] }
 }
 
@@ -418,7 +534,9 @@ pub fn eval_rcon(req: &str, kind: &str, v1: u32, v2: u32) -> Case {
             fail = Some(format!("constructor {} membership wrong at {}", kind, g));
         }
     }
-    Case { req: req.to_string(), imp: fmt_range(&r), nontrivial: true, oracle_fail: fail, tags: vec![] }
+    let mut imp = fmt_range(&r);
+    deep_check("the constructor", &r, &mut imp, &mut fail);
+    Case { req: req.to_string(), imp, nontrivial: true, oracle_fail: fail, tags: vec![] }
 }
 
 /// `rcmp3|A|B|C` : transitivity of the order (C16)
